@@ -18,8 +18,19 @@ pub fn linear_programs(dirs: &[String]) -> Vec<(String, axcut::syntax::Prog)> {
     out
 }
 
+/// the programs of a code-generation run: the .sc files (unless `--gen-only` is among the extra
+/// arguments) followed by `n` programs of the direct linear-AxCut generator (`gen_axlin`)
+pub fn codegen_inputs(which: &str, seed: u64, n: usize, extra: &[String]) -> Vec<(String, axcut::syntax::Prog)> {
+    let gen_only = extra.iter().any(|a| a == "--gen-only");
+    let dirs: Vec<String> = extra.iter().filter(|a| !a.starts_with("--")).cloned().collect();
+    let mut v = if gen_only { Vec::new() } else { linear_programs(&dirs) };
+    let cfg = crate::gen_axlin::Cfg { max_args: match which { "x86" => 5, "a64" | "rv" => 7, _ => 5 }, ..Default::default() };
+    v.extend(crate::gen_axlin::programs(seed, n, &cfg));
+    v
+}
+
 pub fn cmd_codegen(which: &str, _seed: u64, _n: usize, out: &mut dyn Write, dirs: &[String]) {
-    for (k, (name, prog)) in linear_programs(dirs).into_iter().enumerate() {
+    for (k, (name, prog)) in codegen_inputs(which, _seed, _n, dirs).into_iter().enumerate() {
         let lc = axcut2backend::fresh_labels::fresh_label();
         let arity = prog.defs.first().map(|d| d.context.bindings.len()).unwrap_or(0);
         let mut rng = crate::rng::Rng::new(_seed.wrapping_add(k as u64));
@@ -64,3 +75,20 @@ pub fn cmd_codegen(which: &str, _seed: u64, _n: usize, out: &mut dyn Write, dirs
         writeln!(out, "(case {k} {input} {res})").unwrap();
     }
 }
+
+/// `show-gen <which> <seed> <k>`: the k-th generated program of the seed as AxCut text and the
+/// assembly text the back end emits for it (for reports and minimisation; not part of any check)
+pub fn cmd_show_gen(which: &str, seed: u64, k: usize) {
+    use printer::Print;
+    let cfg = crate::gen_axlin::Cfg { max_args: match which { "x86" => 5, _ => 7 }, ..Default::default() };
+    let progs = crate::gen_axlin::programs(seed, k + 1, &cfg);
+    let (name, prog) = progs.into_iter().last().unwrap();
+    println!("// {name}\n{}\n", prog.print_to_string(None));
+    let text = catch(move || match which_static(which) {
+        "x86" => axcut2x86_64::into_routine::into_x86_64_routine(compile::<axcut2x86_64::Backend, _, _, _>(prog)).print_to_string(None),
+        "a64" => axcut2aarch64::into_routine::into_aarch64_routine(compile::<axcut2aarch64::Backend, _, _, _>(prog)).print_to_string(None),
+        _ => axcut2rv64::into_routine::into_rv64_routine(compile::<axcut2rv64::Backend, _, _, _>(prog)),
+    });
+    println!("{text}");
+}
+fn which_static(w: &str) -> &'static str { match w { "x86" => "x86", "a64" => "a64", _ => "rv" } }
